@@ -33,7 +33,8 @@ DirPaths == {<<>>} \cup {<<d>> : d \in D1} \cup {<<d1, d2>> : d1 \in {"src", "ge
             \cup {<<"src", "sub", "deep">>}
 Names == {[stem |-> "a", ext |-> "py"], [stem |-> "keep", ext |-> "ts"], [stem |-> "a", ext |-> "pyc"],
           [stem |-> "lib", ext |-> "so"], [stem |-> "gen_notes", ext |-> "txt"],
-          [stem |-> "vendor.min", ext |-> "ts"]}             \* a compound extension: vendor.min.ts
+          [stem |-> "vendor.min", ext |-> "ts"],             \* a compound extension: vendor.min.ts
+          [stem |-> "shape.so", ext |-> "py"]}               \* shape.so.py: a SOURCE file - only the LAST suffix says what a file is
 Universe == {[dirs |-> d, stem |-> n.stem, ext |-> n.ext] : d \in DirPaths, n \in Names}
 
 \* "x starts with y" for the atoms above (x # y)
